@@ -60,6 +60,15 @@ func init() {
 		ex.clock = c
 		return c
 	}
+	I[apiP+"LiveGoroutines"] = func(t *Thread, fn *ssa.Function, a []Value) Value {
+		n := 0
+		for _, o := range t.ex.threads {
+			if o != t && o.state != 2 {
+				n++
+			}
+		}
+		return MkBV(uint64(n), 64)
+	}
 	I[apiP+"StrictClock"] = func(t *Thread, fn *ssa.Function, a []Value) Value {
 		t.ex.H.noteOutside("two readings of the clock that return the same instant (timestamps are assumed to be strictly increasing)")
 		t.ex.strictClock = true
